@@ -183,3 +183,11 @@ Definition ref16_rows (tt : list EngineSM.row) (structs protos msgs : list strin
   ref16 (elements_of (table_of tt) structs protos msgs) t.
 Definition wf16_rows (tt : list EngineSM.row) (structs protos msgs : list string) (t : template16) : bool :=
   wf_elements16 t (elements_of (table_of tt) structs protos msgs).
+
+(* equality test of two transition structures (used to evaluate sm_tps m = tps_of table on instances) *)
+Fixpoint list_eqb_by {A} (f : A -> A -> bool) (a b : list A) : bool :=
+  match a, b with [], [] => true | x :: r, y :: s => f x y && list_eqb_by f r s | _, _ => false end.
+Definition kv_eqb (a b : string * string) : bool := String.eqb (fst a) (fst b) && String.eqb (snd a) (snd b).
+Definition list_eqb_tps (a b : list (string * list (string * list (list (string * string))))) : bool :=
+  list_eqb_by (fun x y => String.eqb (fst x) (fst y)
+                 && list_eqb_by (fun u v => String.eqb (fst u) (fst v) && list_eqb_by (list_eqb_by kv_eqb) (snd u) (snd v)) (snd x) (snd y)) a b.
